@@ -237,6 +237,7 @@ pub fn scenarios(prop: &str, tier: Tier) -> Vec<Box<dyn Scenario>> {
                 c("mapref_fold", vec![PVar, Fst(0), Var, Fold(vec![1, 2, 1])], vec![3], l),
             ]
         }
+        "C19" => vec![Box::new(crate::c19::HeightLimit { max_n: if q { 6 } else { 10 } }), Box::new(crate::c19::Misuse)],
         "C13" => {
             use Spec::*;
             let mon = Monitors { c13: true, ..Monitors::default() };
@@ -390,6 +391,15 @@ pub fn meta(prop: &str, tier: Tier) -> PropMeta {
             assumptions: common_assume,
             rule: "as C01",
             must_cover: vec!["state-dropped-before-handles", "leak-check-after-stabilise"],
+        },
+        "C19" => PropMeta {
+            level: "other",
+            functions: vec!["incremental::IncrState::{new_with_height, set_max_height_allowed, stabilise}", "AdjustHeightsHeap::{new, set_max_height_allowed, set_height, ensure_height_requirement, adjust_heights}", "RecomputeHeap::{new, set_max_height_allowed, link, insert}", "Node::{became_necessary, state_add_parent, change_child_bind_rhs}, bind's foreign-state assertion, State::stabilise_debug status assertion"],
+            bounds: format!("height limit N in 1..={}; graphs: map chain or chain ending in a bind, of height N-1, N, N+1; then set_max_height_allowed(M) for M in {{h, h+1, h+2}} (h = greatest height in use; grows or shrinks), the old graph re-stabilised after a write, and a second chain of height M (must be accepted) or M+1 (must be rejected with a panic naming the height limit). Misuse: cycle through one bind (two observation shapes), cycle through two binds, node of another state returned from a bind, stabilise from inside a node function / an update handler; afterwards all handles and the state are dropped under catch_unwind. Configuration integers are forked exhaustively; values are symbolic only for the value checks of accepted graphs. Both build profiles", if q { 6 } else { 10 }),
+            outside: vec!["N = 0 and N > the bound; graphs other than chains/binds; a hang without user-function calls or a stack overflow kills the check (reported as tool error, never as a pass)"],
+            assumptions: common_assume,
+            rule: "as C01; since almost no value fork exists here, non-trivial counts the paths with at least one solver-decided fork and is small",
+            must_cover: vec!["graph-at-or-below-limit", "graph-above-limit", "limit-shrunk", "limit-grown", "cycle-through-one-bind", "cycle-through-two-binds", "foreign-state-node-from-bind", "stabilise-inside-node-function", "stabilise-inside-handler"],
         },
         "C13" => PropMeta {
             level: "other",
